@@ -141,6 +141,14 @@ def _bulk_getitem(eng, st, obj, idx, node, site):
 def _empty2(eng, st, args, kwargs, node):
 	"""np.empty((r, c), float32): a fresh 2-d array with arbitrary contents; np.empty(n, float32): 1-d (as a single row)"""
 	shape = args[0]
+	dt = args[1] if len(args) > 1 else kwargs.get('dtype')
+	from .np import as_dtype
+	try:
+		d = as_dtype(dt) if dt is not None else None
+	except Exception:
+		d = None
+	if d is None or not (d.kind == 'f' and d.itemsize == 4):
+		raise Unsupported(f'numpy.empty with a dtype other than float32: {dt!r}')      # the matrix model has float32 cells
 	if isinstance(shape, tuple) and len(shape) == 2:
 		r, c = int_term(shape[0]), int_term(shape[1])
 		ref = Ref('mat2')
